@@ -1838,7 +1838,7 @@ class SingleTableRegistry extends RBQLTableRegistry {
 
     get_iterator_by_table_id(table_id) {
         if (table_id.toLowerCase() !== this.table_id)
-            throw new RbqlIOHandlingError(`Unable to find join table: "${table_id}"`);
+            return null; // Unknown table: the engine reports it as a parsing error, like rbql-py does for its list registry
         return new TableIterator(this.table, this.column_names, this.normalize_column_names, 'b');
     };
 }
